@@ -3,9 +3,12 @@ package main
 import (
 	"bytes"
 	"fmt"
+	"os"
+	"path/filepath"
 	"strconv"
 	"strings"
 
+	"gitlab.com/gomidi/midi/v2/smf"
 	"gitlab.com/gomidi/midi/v2/verifhooks"
 )
 
@@ -170,6 +173,21 @@ func runC03(c Case, m *Model) (v Verdict) {
 	if !bytes.Equal(w.Bytes(), w2.Bytes()) || !bytes.Equal(w.Bytes(), w3.Bytes()) {
 		v.Oracle = append(v.Oracle, "writing the same value twice emitted different bytes")
 	}
+	// oracle 4: the file-level entry point emits the same bytes and nothing else, whatever the path held before
+	// (chosen by a hash of the op, so that a replay does the same)
+	hk := 0
+	for _, ch := range []byte(c.Op) {
+		hk = (hk*31 + int(ch)) % 1000003
+	}
+	for mode := 0; mode < 3; mode++ {
+		if w.Len() < 64 || (hk%4 == 0 && hk%3 == mode) {
+			if msg := writeFileOracle(s, w.Bytes(), mode+3*(hk%200)); msg != "" {
+				v.Oracle = append(v.Oracle, msg)
+				break
+			}
+			v.Tags = append(v.Tags, "WriteFile")
+		}
+	}
 	// tie: byte-exact
 	if mf["w"] != hx(w.Bytes()) {
 		v.Mismatch = append(v.Mismatch, "bytes differ: model "+short(mf["w"])+" impl "+short(hx(w.Bytes())))
@@ -178,4 +196,65 @@ func runC03(c Case, m *Model) (v Verdict) {
 		v.Mismatch = append(v.Mismatch, "size differs: model "+mf["size"]+" impl "+strconv.FormatInt(size, 10))
 	}
 	return
+}
+
+
+// writeFileOracle: SMF.WriteFile on a fresh path, over a longer existing file and over a shorter one leaves exactly
+// the bytes WriteTo emits (a valid file has no trailing bytes), and smf.ReadFile reads the content back.
+func writeFileOracle(s *smf.SMF, want []byte, k int) string {
+	dir := os.Getenv("VERIF_WORK")
+	if dir == "" {
+		dir = os.TempDir()
+	}
+	path := filepath.Join(dir, fmt.Sprintf("c03-%d-%d.mid", os.Getpid(), k%3))
+	defer os.Remove(path)
+	var pre []byte
+	switch k % 3 {
+	case 0:
+		os.Remove(path)
+	case 1: // a longer file is already there
+		pre = bytes.Repeat([]byte{0xAA}, len(want)+1+k%700)
+	case 2: // a shorter one
+		pre = bytes.Repeat([]byte{0x55}, len(want)/2)
+	}
+	if pre != nil {
+		if err := os.WriteFile(path, pre, 0644); err != nil {
+			return ""
+		}
+	}
+	var err error
+	if p := try(func() { err = s.WriteFile(path) }); p != "" {
+		return "panic in WriteFile: " + p
+	}
+	if err != nil {
+		return "WriteFile failed although WriteTo succeeds: " + err.Error()
+	}
+	got, rerr := os.ReadFile(path)
+	if rerr != nil {
+		return "WriteFile reported success but the file cannot be read: " + rerr.Error()
+	}
+	if !bytes.Equal(got, want) {
+		return fmt.Sprintf("WriteFile over a path that held %d bytes left %d bytes on disk, WriteTo emits %d (first difference at %d)", len(pre), len(got), len(want), firstDiff(got, want))
+	}
+	var back *smf.SMF
+	if p := try(func() { back, err = smf.ReadFile(path) }); p != "" {
+		return "panic in ReadFile: " + p
+	}
+	mem, merr := smf.ReadFrom(bytes.NewReader(want))
+	if (err == nil) != (merr == nil) || (err == nil && showSMF(back) != showSMF(mem)) {
+		return fmt.Sprintf("ReadFile of the written file differs from ReadFrom of the same bytes: err %v vs %v", err, merr)
+	}
+	return ""
+}
+
+func firstDiff(a, b []byte) int {
+	for i := 0; i < len(a) && i < len(b); i++ {
+		if a[i] != b[i] {
+			return i
+		}
+	}
+	if len(a) < len(b) {
+		return len(a)
+	}
+	return len(b)
 }
